@@ -43,9 +43,18 @@ def check(inp):
     w.newlibrary.options.show_splicer_comments = inp.get("marks", True)
     w.comment = "//"
     w.linelen, w.indent, w.cont = 1000, 0, ""
-    w._init_splicer({"blk": list(lines)})
+    w._init_splicer({} if inp.get("user_absent") else {"blk": list(lines)})
     out = []
-    added = w._create_splicer("blk", out, default=["default();"])
+    default = inp.get("default", ["default();"])
+    force = inp.get("force")
+    added = w._create_splicer("blk", out, default=default, force=force)
+    # precedence: force, then the user's block (even an empty one), then the default, then nothing
+    if force is not None:
+        lines = list(force)
+    elif inp.get("user_absent"):
+        lines = list(default) if default is not None else []
+    if bool(added) != (force is not None or not inp.get("user_absent") or default is not None):
+        return "_create_splicer reports added=%r for force=%r user_absent=%r default=%r" % (added, force, bool(inp.get("user_absent")), default)
     fp = FP()
     w.indent = inp.get("indent", 1)
     w.write_lines(fp, out, "    ")
@@ -78,6 +87,16 @@ def check(inp):
 
 
 def candidates(seed, around=None):
+    for marks in (True, False):
+        # an empty user block is the user's choice: nothing is emitted, the default does not come back
+        yield {"lines": [], "marks": marks, "indent": 1}
+        yield {"lines": [], "marks": marks, "indent": 1, "default": None}
+        yield {"lines": ["x = 1;"], "marks": marks, "indent": 1, "user_absent": True}
+        yield {"lines": ["x = 1;"], "marks": marks, "indent": 1, "user_absent": True, "default": None}
+        yield {"lines": ["x = 1;"], "marks": marks, "indent": 1, "user_absent": True, "default": []}
+        yield {"lines": ["x = 1;"], "marks": marks, "indent": 1, "force": ["forced();"]}
+        yield {"lines": ["x = 1;"], "marks": marks, "indent": 1, "force": []}
+        yield {"lines": [], "marks": marks, "indent": 1, "force": ["forced();"], "user_absent": True, "default": None}
     atoms = ["x = 1;", "    ++n;", "    --n;", "  y;", "", "    @z", "   ^w", "#ifdef A", "  if (a) {", "  }", " -q", "    +p", "a+ b"]
     for n in range(1, 4):
         for tup in itertools.product(atoms, repeat=n):
